@@ -434,7 +434,7 @@ func (x *Exec) doReturn(st *State, vals []Val, pos token.Pos) {
 	// witnesses: ghost results defined at particular returns
 	wit := map[string]Val{}
 	for _, w := range x.fc.Witnesses {
-		wn := strings.TrimSuffix(w.Name, ":float")
+		wn := witnessName(w.Name)
 		if _, done := wit[wn]; done && w.Anchor != fmt.Sprintf("ret%d", rn) {
 			continue
 		}
@@ -519,7 +519,19 @@ func (x *Exec) cellsEqual(hn string, h1, h0 *Term, k BoundVar, kt, cond *Term) *
 
 // freshWitness: an unconstrained witness value (int by default; a witness
 // declared as  name:float  is a float of the function's model).
+// witnessName strips the kind suffix of a witness declaration
+// (name:float - a float64; name:ints - a sequence of ints).
+func witnessName(n string) string {
+	return strings.TrimSuffix(strings.TrimSuffix(n, ":float"), ":ints")
+}
+
 func (x *Exec) freshWitness(w WitnessDef) Val {
+	if strings.HasSuffix(w.Name, ":ints") {
+		n := sanitize(witnessName(w.Name))
+		ln := x.sym.Fresh("witlen_"+n, SInt)
+		return Val{T: x.sym.Fresh("wit_"+n, ArrSort(SInt, SInt)), Ty: &Ty{K: TSlice, Elem: tyInt},
+			Seq: &SeqView{Off: IntLit(0), Len: ln, Elem: tyInt}}
+	}
 	if strings.HasSuffix(w.Name, ":float") {
 		return Val{T: x.sym.Fresh("wit_"+sanitize(w.Name), x.model.Float), Ty: tyFloat}
 	}
